@@ -202,7 +202,8 @@ impl<P: Payload, A: BoundedOgreAllocator<P> + Send + Sync + 'static> Handle for 
     fn id(&self) -> u64 { self.0.id() }
     fn valid(&self) -> bool { self.0.valid() }
     fn addr(&self) -> usize { &*self.0 as *const P as usize }
-    fn into_shared(self: Box<Self>) -> Box<dyn Handle> { Box::new(OgreArcH(self.0.into_ogre_arc())) }
+    // both forms of the unique -> shared conversion are driven: the method and the `From` trait (chosen by the event id, so replays agree)
+    fn into_shared(self: Box<Self>) -> Box<dyn Handle> { if self.0.id() % 2 == 0 { Box::new(OgreArcH(self.0.into_ogre_arc())) } else { Box::new(OgreArcH(OgreArc::from(self.0))) } }
     fn is_pooled(&self) -> bool { true }
 }
 struct OgreArcH<P: Payload, A: BoundedOgreAllocator<P> + Send + Sync + 'static>(OgreArc<P, A>);
